@@ -20,6 +20,7 @@ Definition fop_ok (s : state) (p : op) : Prop :=
   | OUnion _ _ => False
   | OPatch _ _ _ _ => False
   | OSplit => False
+  | OSubH _ => False
   | _ => True
   end.
 
@@ -116,7 +117,7 @@ Proof. apply Fr_same; reflexivity. Qed.
 
 Lemma Fr_sub_step ats s : FW s -> Forall (Fr (s_heap (fst (sub_step ats s)))) (units (fst (sub_step ats s))).
 Proof.
-  intros Fs. pose proof Fs as [Ws Ff]. pose proof (W_cur s Ws) as Uc. pose proof (FW_cur s Fs) as Fc. unfold sub_step.
+  intros Fs. pose proof Fs as [Ws Ff]. pose proof (W_cur s Ws) as Uc. pose proof (FW_cur s Fs) as Fc. unfold sub_step, sub_step_g. change (substructure_g true) with substructure.
     destruct s as [h o others]. cbn [s_heap s_cur s_others] in *.
   destruct (substructure ats h o) as [[[h2 o2] e]|err] eqn:E; [|exact Ff].
   destruct (sub_spec _ _ _ _ _ _ (proj1 (proj1 Uc)) E) as [h1 [sub0 [X [I0 [C0 [B0 [Cs0 [Fr0 R]]]]]]]].
